@@ -255,15 +255,18 @@ theorem specDiv_free_stage3 (c : Cfg ℂ) (E c1 c2 c3 : ℕ → ℂ) (uh n1 n2 n
 /-! ### P3 `projected3d` -/
 
 /-- read-off of `projected3d`: the output is `leray` of some spectrum `wh` (the masked transform of `u × ω`; it does
-    not depend on the injection) plus a Kolmogorov term `e` that lives on channel `0` at the modes with
-    `k = (0, m, 0)` -/
+    not depend on the injection) plus a Kolmogorov term `e` that lives on channel `0` at the two conjugate modes
+    `k = (0, ±m, 0)`: `−i·γ·scaling` at `(0, m, 0)`, `+i·γ·scaling` at `(0, −m, 0)` -/
 theorem projected3d_spec (c : Cfg ℂ) (uh : MC ℂ) :
     ∃ wh : MC ℂ, ∀ (inj : Option (ℕ × ℂ)) (i h : ℕ), i < 3 → h < modes c →
       ∃ e : ℂ, at2 (projected3d c inj uh) i h = at2 (leray c wh) i h + e ∧
         (inj = none → e = 0) ∧
         (∀ m gam, inj = some (m, gam) →
-          e = if i = 0 ∧ kInt c 0 h = 0 ∧ kInt c 1 h = (m : ℤ) ∧ kInt c 2 h = 0
-            then gam * scaling c.D c.N 2 (unflatten (wavenumberShape c.D c.N) h) else 0) :=
+          e = if i = 0 ∧ kInt c 0 h = 0 ∧ kInt c 2 h = 0 ∧ kInt c 1 h = (m : ℤ)
+            then -Complex.I * (gam * scaling c.D c.N 2 (unflatten (wavenumberShape c.D c.N) h))
+            else if i = 0 ∧ kInt c 0 h = 0 ∧ kInt c 2 h = 0 ∧ kInt c 1 h = -(m : ℤ)
+            then Complex.I * (gam * scaling c.D c.N 2 (unflatten (wavenumberShape c.D c.N) h))
+            else 0) :=
   ⟨_, fun inj i h hi hh => by
     cases inj with
     | none =>
@@ -274,20 +277,32 @@ theorem projected3d_spec (c : Cfg ℂ) (uh : MC ℂ) :
       exact (add_zero _).symm
     | some mg =>
       obtain ⟨m, gam⟩ := mg
-      refine ⟨if i = 0 ∧ kInt c 0 h = 0 ∧ kInt c 1 h = (m : ℤ) ∧ kInt c 2 h = 0
-            then gam * scaling c.D c.N 2 (unflatten (wavenumberShape c.D c.N) h) else 0, ?_,
+      refine ⟨if i = 0 ∧ kInt c 0 h = 0 ∧ kInt c 2 h = 0 ∧ kInt c 1 h = (m : ℤ)
+            then -Complex.I * (gam * scaling c.D c.N 2 (unflatten (wavenumberShape c.D c.N) h))
+            else if i = 0 ∧ kInt c 0 h = 0 ∧ kInt c 2 h = 0 ∧ kInt c 1 h = -(m : ℤ)
+            then Complex.I * (gam * scaling c.D c.N 2 (unflatten (wavenumberShape c.D c.N) h))
+            else 0, ?_,
             fun h0 => (by cases h0), fun m' gam' h0 => (by cases h0; rfl)⟩
       unfold projected3d
       simp only []
       rw [at2_tab2 _ _ _ _ _ hi hh]
       simp only [Bool.and_eq_true, decide_eq_true_eq, beq_iff_eq, and_assoc]
-      by_cases hc : i = 0 ∧ kInt c 0 h = 0 ∧ kInt c 1 h = (m : ℤ) ∧ kInt c 2 h = 0
-      · have hc' : i = 0 ∧ (wnFlat c.D c.N h).getD 0 0 = 0 ∧ (wnFlat c.D c.N h).getD 1 0 = (m : ℤ) ∧
-          (wnFlat c.D c.N h).getD 2 0 = 0 := hc
+      by_cases hc : i = 0 ∧ kInt c 0 h = 0 ∧ kInt c 2 h = 0 ∧ kInt c 1 h = (m : ℤ)
+      · have hc' : i = 0 ∧ (wnFlat c.D c.N h).getD 0 0 = 0 ∧ (wnFlat c.D c.N h).getD 2 0 = 0 ∧
+          (wnFlat c.D c.N h).getD 1 0 = (m : ℤ) := hc
         rw [if_pos hc, if_pos hc']
-      · have hc' : ¬ (i = 0 ∧ (wnFlat c.D c.N h).getD 0 0 = 0 ∧ (wnFlat c.D c.N h).getD 1 0 = (m : ℤ) ∧
-          (wnFlat c.D c.N h).getD 2 0 = 0) := hc
-        rw [if_neg hc, if_neg hc']⟩
+        rfl
+      · have hc' : ¬ (i = 0 ∧ (wnFlat c.D c.N h).getD 0 0 = 0 ∧ (wnFlat c.D c.N h).getD 2 0 = 0 ∧
+          (wnFlat c.D c.N h).getD 1 0 = (m : ℤ)) := hc
+        rw [if_neg hc, if_neg hc']
+        by_cases hn : i = 0 ∧ kInt c 0 h = 0 ∧ kInt c 2 h = 0 ∧ kInt c 1 h = -(m : ℤ)
+        · have hn' : i = 0 ∧ (wnFlat c.D c.N h).getD 0 0 = 0 ∧ (wnFlat c.D c.N h).getD 2 0 = 0 ∧
+            (wnFlat c.D c.N h).getD 1 0 = -(m : ℤ) := hn
+          rw [if_pos hn, if_pos hn']
+          rfl
+        · have hn' : ¬ (i = 0 ∧ (wnFlat c.D c.N h).getD 0 0 = 0 ∧ (wnFlat c.D c.N h).getD 2 0 = 0 ∧
+            (wnFlat c.D c.N h).getD 1 0 = -(m : ℤ)) := hn
+          rw [if_neg hn, if_neg hn']⟩
 
 /-- **P3 the output of `projected3d` is divergence-free at every stored mode**, with or without the
     Kolmogorov injection (`c.D ≤ 3`; the function is meant for `c.D = 3`) -/
@@ -308,8 +323,10 @@ theorem projected3d_div_free (c : Cfg ℂ) (s : ℝ) (hs : c.s = (s : ℂ)) (hs0
     | some mg =>
       obtain ⟨m, gam⟩ := mg
       rw [hsome m gam rfl]
-      split_ifs with hc
+      split_ifs with hc hn
       · obtain ⟨rfl, hk0, _, _⟩ := hc
+        rw [deriv_eq_zero_of_k c 0 h hk0, zero_mul]
+      · obtain ⟨rfl, hk0, _, _⟩ := hn
         rw [deriv_eq_zero_of_k c 0 h hk0, zero_mul]
       · rw [mul_zero]
   rw [this, add_zero]
@@ -324,7 +341,7 @@ theorem projected3d_none_div_free (c : Cfg ℂ) (s : ℝ) (hs : c.s = (s : ℂ))
 
 /-- read-off of `vorticity2d`: the four spectra handed to the inverse transform are
     `û = d₁ψ̂`, `v̂ = −d₀ψ̂`, `d₀ω̂`, `d₁ω̂` with `ψ̂ = invLapOne · ω̂`, and the output is
-    `−scale · fft(u ω_x + v ω_y)` plus the Kolmogorov term `e` on the modes `k = (0, m)` -/
+    `−scale · fft(u ω_x + v ω_y)` plus the Kolmogorov term `e = −(s·k₁)·γ·scaling` on the modes `k = (0, m)` -/
 theorem vorticity2d_spec (c : Cfg ℂ) (scale : ℂ) (uh : MC ℂ) :
     ∃ (uH vH wxH wyH : Array ℂ),
       (∀ (inj : Option (ℕ × ℂ)) (h : ℕ), h < modes c →
@@ -336,7 +353,7 @@ theorem vorticity2d_spec (c : Cfg ℂ) (scale : ℂ) (uh : MC ℂ) :
           (inj = none → e = 0) ∧
           (∀ m gam, inj = some (m, gam) →
             e = if kInt c 0 h = 0 ∧ kInt c 1 h = (m : ℤ)
-              then -(m : ℂ) * gam * scaling c.D c.N 2 (unflatten (wavenumberShape c.D c.N) h) else 0)) ∧
+              then -(c.s * ((kInt c 1 h : ℤ) : ℂ)) * gam * scaling c.D c.N 2 (unflatten (wavenumberShape c.D c.N) h) else 0)) ∧
       (∀ h, h < modes c → uH.getD h 0 = deriv c 1 h * (invLapOne c h * at2 uh 0 h)) ∧
       (∀ h, h < modes c → vH.getD h 0 = -(deriv c 0 h) * (invLapOne c h * at2 uh 0 h)) ∧
       (∀ h, h < modes c → wxH.getD h 0 = deriv c 0 h * at2 uh 0 h) ∧
@@ -353,7 +370,7 @@ theorem vorticity2d_spec (c : Cfg ℂ) (scale : ℂ) (uh : MC ℂ) :
       | some mg =>
         obtain ⟨m, gam⟩ := mg
         refine ⟨if kInt c 0 h = 0 ∧ kInt c 1 h = (m : ℤ)
-              then -(m : ℂ) * gam * scaling c.D c.N 2 (unflatten (wavenumberShape c.D c.N) h) else 0, ?_,
+              then -(c.s * ((kInt c 1 h : ℤ) : ℂ)) * gam * scaling c.D c.N 2 (unflatten (wavenumberShape c.D c.N) h) else 0, ?_,
               fun h0 => (by cases h0), fun m' gam' h0 => (by cases h0; rfl)⟩
         unfold vorticity2d
         simp only []
@@ -362,6 +379,7 @@ theorem vorticity2d_spec (c : Cfg ℂ) (scale : ℂ) (uh : MC ℂ) :
         by_cases hc : kInt c 0 h = 0 ∧ kInt c 1 h = (m : ℤ)
         · have hc' : (wnFlat c.D c.N h).getD 0 0 = 0 ∧ (wnFlat c.D c.N h).getD 1 0 = (m : ℤ) := hc
           rw [if_pos hc, if_pos hc']
+          rfl
         · have hc' : ¬ ((wnFlat c.D c.N h).getD 0 0 = 0 ∧ (wnFlat c.D c.N h).getD 1 0 = (m : ℤ)) := hc
           rw [if_neg hc, if_neg hc'],
     fun h hh => by rw [tab_getD _ _ _ _ hh, tab_getD _ _ _ _ hh],
@@ -450,6 +468,150 @@ theorem velocity_closed_form (c : Cfg ℂ) (s : ℝ) (hs : c.s = (s : ℂ)) (hs0
   simp only [uHat, vHat, psiHat, hinv, laplace_two_eq, deriv_eq, hs]
   constructor <;> field_simp
 
+
+/-! ### the Kolmogorov forcing as documented -/
+
+/-- (a) 2-D: the injected coefficient (output with injection minus output without) is
+    `−(m·s)·γ·scaling` at the stored mode `k = (0, m)` and `0` elsewhere, `s = 2π/L`: in coefficient-extraction units
+    the vorticity forcing `−m·(2π/L)·γ·cos(m·(2π/L)·x₁)` -/
+theorem vorticity2d_injection_documented (c : Cfg ℂ) (s : ℝ) (hs : c.s = (s : ℂ)) (scale : ℂ) (m : ℕ) (gam : ℂ)
+    (uh : MC ℂ) (h : ℕ) (hh : h < modes c) :
+    at2 (vorticity2d c scale (some (m, gam)) uh) 0 h - at2 (vorticity2d c scale none uh) 0 h
+      = if kInt c 0 h = 0 ∧ kInt c 1 h = (m : ℤ)
+        then -(((m : ℝ) * s : ℝ) : ℂ) * gam * scaling c.D c.N 2 (unflatten (wavenumberShape c.D c.N) h)
+        else 0 := by
+  obtain ⟨uH, vH, wxH, wyH, hmain, _⟩ := vorticity2d_spec c scale uh
+  obtain ⟨e1, h1, _, he1⟩ := hmain (some (m, gam)) h hh
+  obtain ⟨e0, h0, he0, _⟩ := hmain none h hh
+  rw [h1, h0, he0 rfl, he1 m gam rfl, add_zero, add_sub_cancel_left]
+  split_ifs with hc
+  · rw [hc.2, hs]; push_cast; ring
+  · rfl
+
+/-- (b) 3-D: the injected coefficients (output with injection minus output without) are `−i·γ·scaling` at
+    `k = (0, m, 0)` and `+i·γ·scaling` at `k = (0, −m, 0)`, on channel `0` only, `0` elsewhere -/
+theorem projected3d_injection_documented (c : Cfg ℂ) (m : ℕ) (gam : ℂ) (uh : MC ℂ) (i h : ℕ) (hi : i < 3)
+    (hh : h < modes c) :
+    at2 (projected3d c (some (m, gam)) uh) i h - at2 (projected3d c none uh) i h
+      = if i = 0 ∧ kInt c 0 h = 0 ∧ kInt c 2 h = 0 ∧ kInt c 1 h = (m : ℤ)
+        then -Complex.I * gam * scaling c.D c.N 2 (unflatten (wavenumberShape c.D c.N) h)
+        else if i = 0 ∧ kInt c 0 h = 0 ∧ kInt c 2 h = 0 ∧ kInt c 1 h = -(m : ℤ)
+        then Complex.I * gam * scaling c.D c.N 2 (unflatten (wavenumberShape c.D c.N) h)
+        else 0 := by
+  obtain ⟨wh, hspec⟩ := projected3d_spec c uh
+  obtain ⟨e1, h1, _, he1⟩ := hspec (some (m, gam)) i h hi hh
+  obtain ⟨e0, h0, he0, _⟩ := hspec none i h hi hh
+  rw [h1, h0, he0 rfl, he1 m gam rfl, add_zero, add_sub_cancel_left]
+  split_ifs <;> ring
+
+/-- the conjugate pair `(−i·a, +i·a)` at wavenumbers `(+m, −m)` is the sine: for real `a`, `θ`
+    (`θ = m·s·x₁`), `(−i a) e^{iθ} + (i a) e^{−iθ} = 2 a sin θ`; with `a = γ·N³/2` (the coefficient-extraction
+    scaling of a non-special mode pair) this is `N³ · γ sin(m s x₁)`, the unnormalised inverse transform of the
+    injected pair -/
+theorem kolmogorov_pair_is_sine (a θ : ℝ) :
+    (-Complex.I * (a : ℂ)) * Complex.exp (Complex.I * θ) + (Complex.I * (a : ℂ)) * Complex.exp (-(Complex.I * θ))
+      = ((2 * a * Real.sin θ : ℝ) : ℂ) := by
+  have hsin : Complex.sin (θ : ℂ)
+      = (Complex.exp (-(Complex.I * θ)) - Complex.exp (Complex.I * θ)) * Complex.I / 2 := by
+    rw [Complex.sin]; congr 4 <;> ring
+  push_cast
+  rw [hsin]; ring
+
+/-- the same for complex amplitude `a` (the model's `γ` is a `K`-value) -/
+theorem kolmogorov_pair_is_sine' (a : ℂ) (θ : ℝ) :
+    (-Complex.I * a) * Complex.exp (Complex.I * θ) + (Complex.I * a) * Complex.exp (-(Complex.I * θ))
+      = 2 * a * Complex.sin θ := by
+  have hsin : Complex.sin (θ : ℂ)
+      = (Complex.exp (-(Complex.I * θ)) - Complex.exp (Complex.I * θ)) * Complex.I / 2 := by
+    rw [Complex.sin]; congr 4 <;> ring
+  rw [hsin]; ring
+
+/-- likewise the single stored half-spectrum mode `(0, m)` with real coefficient `A` and Hermitian weight 2 is the
+    cosine: `A e^{iθ} + A e^{−iθ} = 2 A cos θ` (2-D forcing `−m s γ cos(m s x₁)`) -/
+theorem kolmogorov_mode_is_cosine (A θ : ℝ) :
+    (A : ℂ) * Complex.exp (Complex.I * θ) + (A : ℂ) * Complex.exp (-(Complex.I * θ))
+      = ((2 * A * Real.cos θ : ℝ) : ℂ) := by
+  have hcos : Complex.cos (θ : ℂ)
+      = (Complex.exp (Complex.I * θ) + Complex.exp (-(Complex.I * θ))) / 2 := by
+    rw [Complex.cos]; congr 3 <;> ring
+  push_cast
+  rw [hcos]; ring
+
+/-- the coefficient-extraction scaling at a 3-D mode, in terms of the integer wavenumbers -/
+theorem scaling_coef_extraction_3d (c : Cfg ℂ) (hD : c.D = 3) (h : ℕ) :
+    (scaling c.D c.N 2 (unflatten (wavenumberShape c.D c.N) h) : ℂ)
+      = axisScale c.N 2 false (kInt c 0 h) * axisScale c.N 2 false (kInt c 1 h)
+          * axisScale c.N 2 true (kInt c 2 h) := by
+  obtain ⟨D, N, s, fp, fq⟩ := c
+  simp only at hD
+  subst hD
+  simp [scaling, kInt, wnFlat, wnVec, prodList, List.range_succ]
+
+theorem scaling_coef_extraction_2d (c : Cfg ℂ) (hD : c.D = 2) (h : ℕ) :
+    (scaling c.D c.N 2 (unflatten (wavenumberShape c.D c.N) h) : ℂ)
+      = axisScale c.N 2 false (kInt c 0 h) * axisScale c.N 2 true (kInt c 1 h) := by
+  obtain ⟨D, N, s, fp, fq⟩ := c
+  simp only at hD
+  subst hD
+  simp [scaling, kInt, wnFlat, wnVec, prodList, List.range_succ]
+
+/-- at `(0, ±m, 0)` with `0 < m < N/2` the coefficient-extraction scaling is `N · (N/2) · N = N³/2` -/
+theorem scaling_at_kolmogorov_3d (c : Cfg ℂ) (hD : c.D = 3) (h : ℕ) (m : ℕ) (hm : 0 < m) (hmN : 2 * m < c.N)
+    (hk0 : kInt c 0 h = 0) (hk2 : kInt c 2 h = 0) (hk1 : kInt c 1 h = (m : ℤ) ∨ kInt c 1 h = -(m : ℤ)) :
+    (scaling c.D c.N 2 (unflatten (wavenumberShape c.D c.N) h) : ℂ) = (c.N : ℂ) * ((c.N : ℂ) / 2) * (c.N : ℂ) := by
+  rw [scaling_coef_extraction_3d c hD h, hk0, hk2]
+  have hf : Int.fdiv (-(c.N : ℤ)) 2 = (-(c.N : ℤ)) / 2 := Int.fdiv_eq_ediv_of_nonneg _ (by norm_num)
+  have hns : isSpecial c.N false (kInt c 1 h) = false := by
+    simp only [isSpecial, Bool.or_eq_false_iff, Bool.and_eq_false_iff, beq_eq_false_iff_ne, Bool.false_eq_true, if_false]
+    rcases hk1 with hk1 | hk1 <;> rw [hk1, hf] <;> refine ⟨by omega, Or.inr (by omega)⟩
+  have h0 : ∀ b, isSpecial c.N b 0 = true := fun b => by simp [isSpecial]
+  simp only [axisScale, hns, h0, if_true, lit_eq]
+  simp
+
+/-- at the stored 2-D mode `(0, m)` with `0 < m < N/2` the coefficient-extraction scaling is `N · (N/2) = N²/2` -/
+theorem scaling_at_kolmogorov_2d (c : Cfg ℂ) (hD : c.D = 2) (h : ℕ) (m : ℕ) (hm : 0 < m) (hmN : 2 * m < c.N)
+    (hk0 : kInt c 0 h = 0) (hk1 : kInt c 1 h = (m : ℤ)) :
+    (scaling c.D c.N 2 (unflatten (wavenumberShape c.D c.N) h) : ℂ) = (c.N : ℂ) * ((c.N : ℂ) / 2) := by
+  rw [scaling_coef_extraction_2d c hD h, hk0, hk1]
+  have hns : isSpecial c.N true (m : ℤ) = false := by
+    simp only [isSpecial, Bool.or_eq_false_iff, Bool.and_eq_false_iff, beq_eq_false_iff_ne, if_true]
+    by_cases he : c.N % 2 = 0
+    · exact ⟨by omega, Or.inr (by omega)⟩
+    · exact ⟨by omega, Or.inl he⟩
+  have h0 : ∀ b, isSpecial c.N b 0 = true := fun b => by simp [isSpecial]
+  simp only [axisScale, hns, h0, if_true, lit_eq]
+  simp
+
+/-- 2-D Kolmogorov forcing, fully evaluated: at `k = (0, m)`, `0 < m < N/2`, the injected coefficient is
+    `−(m s)·γ·N²/2`, the rfft coefficient of `−m s γ cos(m s x₁)` on the `N²` grid -/
+theorem vorticity2d_injection_value (c : Cfg ℂ) (s : ℝ) (hs : c.s = (s : ℂ)) (hD : c.D = 2) (scale : ℂ) (m : ℕ)
+    (gam : ℂ) (uh : MC ℂ) (h : ℕ) (hh : h < modes c) (hm : 0 < m) (hmN : 2 * m < c.N)
+    (hk0 : kInt c 0 h = 0) (hk1 : kInt c 1 h = (m : ℤ)) :
+    at2 (vorticity2d c scale (some (m, gam)) uh) 0 h - at2 (vorticity2d c scale none uh) 0 h
+      = -(((m : ℝ) * s : ℝ) : ℂ) * gam * ((c.N : ℂ) * ((c.N : ℂ) / 2)) := by
+  rw [vorticity2d_injection_documented c s hs scale m gam uh h hh, if_pos ⟨hk0, hk1⟩,
+    scaling_at_kolmogorov_2d c hD h m hm hmN hk0 hk1]
+
+/-- 3-D Kolmogorov forcing, fully evaluated: on channel `0`, `0 < m < N/2`, the injected coefficients are
+    `−i·γ·N³/2` at `(0, m, 0)` and `+i·γ·N³/2` at `(0, −m, 0)`: the fft coefficients of `γ sin(m s x₁)` on the
+    `N³` grid (`kolmogorov_pair_is_sine` with `a = γ N³/2`) -/
+theorem projected3d_injection_value (c : Cfg ℂ) (hD : c.D = 3) (m : ℕ) (gam : ℂ) (uh : MC ℂ) (h : ℕ)
+    (hh : h < modes c) (hm : 0 < m) (hmN : 2 * m < c.N) (hk0 : kInt c 0 h = 0) (hk2 : kInt c 2 h = 0) :
+    (kInt c 1 h = (m : ℤ) →
+      at2 (projected3d c (some (m, gam)) uh) 0 h - at2 (projected3d c none uh) 0 h
+        = -Complex.I * gam * ((c.N : ℂ) * ((c.N : ℂ) / 2) * (c.N : ℂ))) ∧
+    (kInt c 1 h = -(m : ℤ) →
+      at2 (projected3d c (some (m, gam)) uh) 0 h - at2 (projected3d c none uh) 0 h
+        = Complex.I * gam * ((c.N : ℂ) * ((c.N : ℂ) / 2) * (c.N : ℂ))) := by
+  constructor
+  · intro hk1
+    rw [projected3d_injection_documented c m gam uh 0 h (by norm_num) hh, if_pos ⟨rfl, hk0, hk2, hk1⟩,
+      scaling_at_kolmogorov_3d c hD h m hm hmN hk0 hk2 (Or.inl hk1)]
+  · intro hk1
+    have hne : ¬ (0 = 0 ∧ kInt c 0 h = 0 ∧ kInt c 2 h = 0 ∧ kInt c 1 h = (m : ℤ)) := by
+      rintro ⟨_, _, _, h1⟩; omega
+    rw [projected3d_injection_documented c m gam uh 0 h (by norm_num) hh, if_neg hne, if_pos ⟨rfl, hk0, hk2, hk1⟩,
+      scaling_at_kolmogorov_3d c hD h m hm hmN hk0 hk2 (Or.inr hk1)]
 
 /-! ### the spectral curl used by `projected3d` is divergence-free (P2(b) at the derivative vector) -/
 
